@@ -27,14 +27,20 @@ Monotone(c) ==
     LET V == ValidCells(c.x, c.nd) IN
     \A i, j \in V : /\ (RLe(c.x[i], c.x[j]) => c.out[i] <= c.out[j])
                     /\ (c.x[i] = c.x[j] => c.out[i] = c.out[j])
-\* cells whose exact index lies beyond +-7000 must stay on their side, beyond every in-range index
+\* cells whose exact index lies beyond +-7000 must stay on their side, beyond every in-range index.
+\* float32 inputs: the kernel's fit differs from the float64 oracle's by the share c.drel of the index
+\* (single-precision logarithms), so the bound shrinks by that share; where the share is not quantifiable
+\* ("big": near-constant calibration windows, shape ~1e5) only the side is demanded.
+SatBound(c) == IF c.drel = "big" THEN 1
+               ELSE IF c.drel = "0" THEN 6999 - c.dlt
+               ELSE 6999 - c.dlt - RFloor(RMul(c.drel, "7000")) - 1
 Saturates(c) ==
     \A i \in ValidCells(c.x, c.nd) :
         LET p0 == P0(c.x, c.nd)
             u == RAdd(p0, RMul(RSub("1", p0), c.G[i]))
             q == RMul(RSub("1", p0), c.S[i])
             b == Beyond(PT, u, q)
-        IN  (b = 1 => c.out[i] >= 6999) /\ (b = -1 => c.out[i] <= -6999)
+        IN  (b = 1 => c.out[i] >= SatBound(c)) /\ (b = -1 => c.out[i] <= -SatBound(c))
 
 \* widening for float32 inputs: c.dlt units plus the share c.drel of the index (single-precision
 \* logarithms in the sufficient statistic shift alpha, hence the index, proportionally)
